@@ -2,7 +2,7 @@ import KitModel.PoolOwnership
 import KitModel.Generated.C08
 import KitProofs.Lemmas.PoolOwnership
 import KitProofs.Lemmas.PoolOwnershipEnc
-import KitProofs.Props.C14
+import KitProofs.Lemmas.Containers
 /-!
 # C08 — independent operations do not interfere through package-level shared state
 
@@ -202,12 +202,21 @@ theorem logger_read_ops_readonly (op : RegOp) (h : (regExpectedShapes.lookup (re
 
 /-- **The registry is linearizable**: every operation is one critical section of the one RWMutex
 (get-or-create under the write lock, snapshot copy under the read lock), so every concurrent
-history — any number of goroutines — is a history of the atomic registry.  Instance of C14's
-`atomic_sections_linearizable`. -/
+history — any number of goroutines — is a history of the atomic registry.  The instance of C14's
+`atomic_sections_linearizable` for the registry, proved here from the same generic simulation lemma
+(`Lemmas/Containers.run_sim`) so that this module does not depend on the rest of C14's theorems. -/
 theorem logger_registry_linearizable {tr : List (ILabel RegOp RegRet)} {c : ICfg (List Nat) RegRet RegOp}
     (h : Run (Impl.single regSpec).Step ((Impl.single regSpec).cfg0 regSpec.init) tr c) :
-    Linearizable regSpec (tr.filterMap ILabel.hist) :=
-  Kit.C14.atomic_sections_history_linearizable _ _ (Kit.C14.single_atomic regSpec) h
+    Linearizable regSpec (tr.filterMap ILabel.hist) := by
+  -- every operation is exactly one critical section performing the specified effect
+  have hA : (Impl.single regSpec).Atomic regSpec :=
+    { start_op := fun _ => rfl
+      commit := fun k s s' r h => by obtain ⟨r', hr, he⟩ := h; cases hr; exact he
+      defer := fun k s s' k' h => by obtain ⟨r', hr, _⟩ := h; cases hr }
+  -- the generic simulation (the content of C14's `atomic_sections_linearizable`)
+  exact ⟨tr.filterMap ILabel.toSpec, absCfg (Impl.single regSpec) c,
+    by simpa [absCfg, Impl.cfg0, Spec.cfg0, absStat] using run_sim (Impl.single regSpec) regSpec hA h,
+    hist_toSpec tr⟩
 
 /-- in the atomic registry, asking twice for a name yields the same logger, and different names
 never share one (what `NewLogger` callers rely on) -/
